@@ -4,6 +4,7 @@
   shape (or the repair) named here, this module stops checking and the C16 check reports it.
 -/
 import NngModel.Model.HttpServer
+import NngModel.Model.HttpClient
 namespace Nng.C16ServerSrc
 open Nng Nng.HttpSrv
 
@@ -30,6 +31,14 @@ theorem head_never_gets_body : flags.errorPrunesHead = true ∧ flags.cbdonePrun
 
 /-- the "this response is an error page" mark does not survive the request it was set for -/
 theorem iserr_is_per_request : flags.iserrReset = true := by decide
+
+/-- http_prepare formats the head into the connection buffer only when `len < bufsz` (with `<=` a head of exactly
+    bufsz bytes is written with its last byte replaced by NUL: Props/C16Server.non_strict_test_truncates) -/
+theorem prepare_test_is_strict : wrStrict = true := by decide
+
+/-- nni_http_transact_conn calls nni_http_res_reset before it sends the request (without it the response headers of
+    the previous transaction on the connection frame the next response: Props/C16Client.unreset_response_leaks) -/
+theorem response_is_reset_per_transaction : HttpCli.cliResets = true := by decide
 
 /-- together: the code under test is the repaired code the theorems of Props/C16Server.lean speak about -/
 theorem source_is_repaired : flags = fixed := by decide
